@@ -1520,3 +1520,46 @@ func pureTotal(e ast.Expr) bool {
 	}
 	return false
 }
+
+// concIntBig: like concInt but allows domains up to 2^22 values (explicit concretize() in harnesses), by bisection then enumeration.
+func (bx *BX) concIntBig(t *Term, what string) int64 {
+	for iter := 0; iter < 64; iter++ {
+		t = bx.norm(t)
+		if v, ok := t.Int64(); ok {
+			return v
+		}
+		fs := bx.freeSyms(t)
+		if len(fs) != 1 {
+			return bx.concInt(t, what)
+		}
+		s := fs[0]
+		sz := s.size()
+		if sz.Cmp(big.NewInt(4096)) <= 0 {
+			return bx.concInt(t, what)
+		}
+		if sz.Cmp(big.NewInt(1<<22)) > 0 {
+			bx.abort("unsupported", "%s over a domain of %s values", what, sz)
+		}
+		// bisect
+		lo, hi := s.dom[0].lo, s.dom[len(s.dom)-1].hi
+		mid := new(big.Int).Div(new(big.Int).Add(lo, hi), big.NewInt(2))
+		var a, b []ival
+		for _, iv := range s.dom {
+			if iv.hi.Cmp(mid) <= 0 {
+				a = append(a, iv)
+			} else if iv.lo.Cmp(mid) > 0 {
+				b = append(b, iv)
+			} else {
+				a = append(a, ival{iv.lo, mid})
+				b = append(b, ival{new(big.Int).Add(mid, big.NewInt(1)), iv.hi})
+			}
+		}
+		if bx.choose(2) == 0 {
+			s.dom = a
+		} else {
+			s.dom = b
+		}
+	}
+	bx.abort("unsupported", "concIntBig did not converge")
+	return 0
+}
